@@ -78,7 +78,7 @@ def run(chk, tier):
     psim = [p for p in psim if 3 <= len(p["prog"]["instrs"])]
     rnd.shuffle(p1)
     rnd.shuffle(psim)
-    n1, ns = (400, 400) if thorough else (45, 45)
+    n1, ns = (400, 400) if thorough else (35, 35)
     progs = sorted(p1[:n1] + psim[:ns], key=lambda p: json.dumps(p["prog"], sort_keys=True))
     cfgs, classes = c01.configs(chk)
     strong = [c for c in cfgs if c["q"] * c["rate"] + c["pow"] >= 50 and not c["zk"]]
